@@ -254,6 +254,22 @@ func genInput(t *sim.Tape, allowed []Surface, st *sim.Stats) *Input {
 		}
 	case SurfAFM:
 		m := gen.GenMetrics(t, 20)
+		if t.Choose(40) == 0 {
+			// a metrics file of more than a megabyte (tens of thousands of
+			// kerning pairs, as CJK fonts have them)
+			var sb bytes.Buffer
+			sb.Write(bytes.TrimSuffix(bytes.TrimSuffix(gen.AFMRelayout(t, m), []byte("EndFontMetrics\r\n")), []byte("EndFontMetrics\n")))
+			n := 45000 + t.Choose(30000)
+			fmt.Fprintf(&sb, "StartKernData\nStartKernPairs %d\n", n)
+			for i := 0; i < n; i++ {
+				fmt.Fprintf(&sb, "KPX glyph%05d other%05d %d\n", i, (i*7)%n, -(i % 90))
+			}
+			sb.WriteString("EndKernPairs\nEndKernData\nEndFontMetrics\n")
+			in.Data = sb.Bytes()
+			in.Desc = fmt.Sprintf("AFM (harness layout) with %d kerning pairs, %d bytes", n, sb.Len())
+			in.Marks = append(in.Marks, 1<<20, 1<<20+1, len(in.Data)-1)
+			break
+		}
 		if t.Bool(1, 2) {
 			in.Data = gen.AFMRelayout(t, m)
 			in.Desc = "AFM (harness layout)"
@@ -296,6 +312,22 @@ func genInput(t *sim.Tape, allowed []Surface, st *sim.Stats) *Input {
 		}
 		in.Data = d
 		in.Marks = nil
+	}
+	// what transport and tools put in front of a file: byte order marks, blank
+	// lines, a printer job header, a stray control byte.  Whatever a reader
+	// makes of such a file, it has to make the same of it under every delivery.
+	if t.Choose(25) == 0 {
+		pre := [][]byte{{0xEF, 0xBB, 0xBF}, {0xFE, 0xFF}, {0xFF, 0xFE}, {0x04}, {0x00}, []byte("\x1b%-12345X"), []byte("\n"), []byte("\r\n\r\n"), []byte(" "),
+			bytes.Repeat([]byte(" "), 1+t.Choose(40)), bytes.Repeat([]byte("\n"), 31+t.Choose(3)), []byte("\t \n")}[t.Choose(12)]
+		in.Data = append(append([]byte{}, pre...), in.Data...)
+		for i := range in.Marks {
+			in.Marks[i] += len(pre)
+		}
+		for k := 0; k <= len(pre)+1; k++ {
+			in.Marks = append(in.Marks, k)
+		}
+		in.Complete = false
+		in.Desc += fmt.Sprintf(", %d-byte prefix %q", len(pre), pre[:min(len(pre), 12)])
 	}
 	return in
 }
